@@ -1,5 +1,6 @@
 import CasbinVerif.Model.Loader
 import CasbinVerif.Properties.C02
+import CasbinVerif.Proofs.C07Sort
 /-
   C07 — Priority policies are always evaluated in priority order.
 
@@ -31,34 +32,58 @@ theorem add_position (pi : Nat) (s : Store) (r : Rule) (hs : SortedP pi s.policy
     (s.add (some pi) r).policy =
       s.policy.filter (fun q => keyLe (prioKey pi q) (prioKey pi r)) ++ [r] ++
       s.policy.filter (fun q => !keyLe (prioKey pi q) (prioKey pi r)) := by
-  sorry
+  have hk : keyLe = C07L.kle := by funext a b; cases a <;> cases b <;> rfl
+  have hp : prioKey = C07L.key := rfl
+  rw [hk, hp]
+  exact C07L.add_policy_eq pi s r (by rw [SortedP, hk, hp] at hs; exact hs)
 
 theorem add_keeps_sorted (pi : Nat) (s : Store) (r : Rule) (hs : SortedP pi s.policy) :
     SortedP pi (s.add (some pi) r).policy := by
-  sorry
+  have hk : keyLe = C07L.kle := by funext a b; cases a <;> cases b <;> rfl
+  have hp : prioKey = C07L.key := rfl
+  rw [SortedP, hk, hp] at hs ⊢
+  rw [C07L.add_policy_eq pi s r hs]
+  exact C07L.ins_sorted pi r s.policy hs
 
 /-- removal keeps the order of the remaining rules, hence sortedness -/
 theorem remove_keeps_sorted (pi : Nat) (s : Store) (r : Rule) (hs : SortedP pi s.policy) :
     SortedP pi (s.remove r).1.policy := by
-  sorry
+  exact List.Pairwise.sublist (C07L.remove_sublist s r) hs
 
 /-- the sort run on every load: sorted, same rules, equal priorities keep their order -/
 theorem sortByPrio_sorted (pi : Nat) (l : List Rule) :
     SortedP pi (Enf.sortByPrio pi l) ∧ (Enf.sortByPrio pi l).Perm l ∧
     ∀ k, (Enf.sortByPrio pi l).filter (fun q => prioKey pi q == k) = l.filter (fun q => prioKey pi q == k) := by
-  sorry
+  have hk : keyLe = C07L.kle := by funext a b; cases a <;> cases b <;> rfl
+  have hp : prioKey = C07L.key := rfl
+  rw [SortedP, hk, hp]
+  have h := C07L.foldl_insertByPrio pi l [] List.Pairwise.nil
+  refine ⟨h.1, ?_, ?_⟩
+  · have := h.2.1; rw [List.nil_append] at this; exact this
+  · intro k; have := h.2.2 k; rw [List.filter_nil, List.nil_append] at this; exact this
 
 /-- in a sorted policy the first rule satisfying any predicate (matched with effect allow or deny)
     has the least priority among all rules satisfying it -/
 theorem first_match_least (pi : Nat) (l : List Rule) (hs : SortedP pi l) (q : Rule → Bool) (c : Rule)
     (h : l.find? q = some c) : ∀ d ∈ l, q d = true → keyLe (prioKey pi c) (prioKey pi d) = true := by
-  sorry
+  have hk : keyLe = C07L.kle := by funext a b; cases a <;> cases b <;> rfl
+  have hp : prioKey = C07L.key := rfl
+  rw [SortedP, hk, hp] at hs
+  rw [hk, hp]
+  exact C07L.find_least pi l hs q c h
 
 /-- any history of additions and removals from an empty (or sorted) policy stays sorted:
     whether or not a policy was ever loaded -/
 theorem history_sorted (pi : Nat) (s : Store) (ops : List (Bool × Rule)) (hs : SortedP pi s.policy) :
     SortedP pi (ops.foldl (fun s op => if op.1 then s.add (some pi) op.2 else (s.remove op.2).1) s).policy := by
-  sorry
+  induction ops generalizing s with
+  | nil => exact hs
+  | cons op rest ih =>
+    rw [List.foldl_cons]
+    apply ih
+    split
+    · exact add_keeps_sorted pi s op.2 hs
+    · exact remove_keeps_sorted pi s op.2 hs
 
 /-- the subject ordering is a stable sort by descending level, for every level function
     (whatever the role graph: trees, DAGs, cycles) -/
@@ -66,7 +91,10 @@ theorem subject_sort_stable (lvl : Rule → Nat) (rules : List Rule) :
     let out := rules.foldl (fun acc r => insertByLevel lvl r acc) []
     out.Perm rules ∧ out.Pairwise (fun a b => lvl a ≥ lvl b) ∧
     ∀ k, out.filter (fun q => lvl q == k) = rules.filter (fun q => lvl q == k) := by
-  sorry
+  have h := C07L.foldl_insertByLevel lvl rules [] List.Pairwise.nil
+  refine ⟨?_, h.2.1, ?_⟩
+  · have := h.1; rw [List.nil_append] at this; exact this
+  · intro k; have := h.2.2 k; rw [List.filter_nil, List.nil_append] at this; exact this
 
 /-! ### non-vacuity (evaluated by the compiler: `String.toNat?` does not reduce in the kernel, so these
 are checks, not proofs) -/
